@@ -353,7 +353,13 @@ func coordinator(c *Check, tier string) int {
 					Trace []string
 					Hash  uint64
 				}
-				if err != nil || json.Unmarshal(outb, &res) != nil || res.Sig != f.V.Sig {
+				// a fresh process may report the same defect through its other face (detector report vs. the panic
+				// it leads to): any C19 violation of the same schedule confirms it
+				if err == nil && json.Unmarshal(outb, &res) == nil && res.Sig != "" && res.Sig != f.V.Sig && i == 0 {
+					f.V.Msg += fmt.Sprintf(" [a fresh process reports this schedule as %q]", res.Sig)
+					f.V.Sig = res.Sig
+				}
+				if err != nil || res.Sig == "" || res.Sig != f.V.Sig {
 					fmt.Fprintf(os.Stderr, "confirm run %d: err=%v sig=%q want %q out=%.200s\n", i, err, res.Sig, f.V.Sig, outb)
 					ok = false
 					break
@@ -369,6 +375,12 @@ func coordinator(c *Check, tier string) int {
 			if !ok {
 				fmt.Fprintf(os.Stderr, "machinery error: race %q of %s does not replay deterministically\n", f.V.Sig, f.Scenario)
 				return 2
+			}
+			if f.V.Sig != key {
+				if printed[f.V.Sig] {
+					continue // the confirmed face of this defect has been reported already
+				}
+				printed[f.V.Sig] = true
 			}
 		}
 		if f.SetLevel {
@@ -576,7 +588,7 @@ func replay(c *Check, path string) int {
 		return 0
 	}
 	for _, tier := range []string{m.Tier, "quick", "thorough"} {
-		for _, sc := range c.Scenarios(tier) {
+		for _, sc := range scenariosOf(c, tier) {
 			if sc.Name != m.Scenario {
 				continue
 			}
@@ -628,7 +640,7 @@ func main() {
 			Prefix   []int  `json:"prefix"`
 		}
 		_ = json.Unmarshal(b, &m)
-		for _, sc := range c.Scenarios(m.Tier) {
+		for _, sc := range scenariosOf(c, m.Tier) {
 			if sc.Name == m.Scenario {
 				ex, _, v := explore.RunOnce(sc, m.Prefix, true)
 				// A cold process orders goroutines through one-time initialisation inside the standard
